@@ -156,6 +156,10 @@ fn pass_2_internal(segment: &Segment, common_context: &CommonContext) -> Result<
                     Some(register) => register,
                     None => bail!("{} must be defined as a register (r0 - r31), {}", alias, line),
                 };
+                // a register keeps its name: `.def r5 = r20` would never be looked at
+                if Reg8::from_str(alias.to_lowercase().as_str()).is_ok() {
+                    bail!("{} is a register and cannot name an alias, {}", alias, line);
+                }
                 // (set_def refuses a name that is taken, it does not replace)
                 if common_context.exist(&alias.to_lowercase()) {
                     // TODO: add display current string of mistake and previous location
